@@ -112,6 +112,20 @@ def wrap_int(v, ty):
     return v - (1 << b) if v >= (1 << (b - 1)) else v
 
 
+def ulps_eq_f32(x, y, eps, ulps):
+    """approx::UlpsEq for f32"""
+    x, y, eps = f32r(float(x)), f32r(float(y)), float(eps)
+    if x != x or y != y:
+        return False
+    if abs(f32r(x - y)) <= eps:
+        return True
+    if (math.copysign(1.0, x) < 0) != (math.copysign(1.0, y) < 0):
+        return False
+    ix = struct.unpack('<i', struct.pack('<f', x))[0]
+    iy = struct.unpack('<i', struct.pack('<f', y))[0]
+    return abs(ix - iy) <= int(ulps)
+
+
 def f32r(x):
     try:
         return struct.unpack('f', struct.pack('f', x))[0]
@@ -304,7 +318,8 @@ class Machine:
         c = c.strip()
         m = re.match(r'^(-?[\d.]+(?:[eE][+-]?\d+)?)(f64|f32)$', c)
         if m:
-            return [s.fl(float(m.group(1)))]
+            v = float(m.group(1))
+            return [s.fl(f32r(v) if m.group(2) == 'f32' else v)]      # an f32 literal denotes the nearest f32
         m = re.match(r'^(-?\d+)_(\w+)$', c)
         if m:
             return [int(m.group(1))]
@@ -319,7 +334,7 @@ class Machine:
         if c.startswith('"'):
             body = c[1:c.rindex('"')]
             return [Str(body), len(body)]
-        m = re.match(r'^(?:cgmath::)?(?:R|Rad|Deg|Rad::<.*?>|Deg::<.*?>|Wrapping::<.*?>)\((.*)\)$', c)
+        m = re.match(r'^(?:cgmath::)?(?:R32|r32::R32|R|Rad|Deg|Rad::<.*?>|Deg::<.*?>|Wrapping::<.*?>)\((.*)\)$', c)
         if m:
             return s.const(m.group(1))
         m = re.match(r'^(?:std::option::)?Option::<.*>::Some\((.*)\)$', c)
@@ -654,8 +669,8 @@ class Machine:
                 return [float(x) if s.mode == 'CONC' else Fraction(x)]
             if kind == 'FloatToFloat':
                 x = v[0]
-                if s.mode == 'CONC' and not is_sym(x) and to == 'f32':
-                    return [f32r(float(x))]
+                if not is_sym(x) and to == 'f32' and isinstance(x, (float, Fraction, int)) and not isinstance(x, bool):
+                    return [s.fl(f32r(float(x)))]
                 return [x]
             if kind == 'FloatToInt':
                 x = v[0]
@@ -701,6 +716,21 @@ class Machine:
         a = args
         if fname == 'r_const':
             return a[0]
+        if fname == 'r32_const':
+            # R32's literal constructor: `c as f32` -- a concrete constant rounds to f32, a symbolic value is kept (REAL mode
+            # models the f32 instantiation with exact arithmetic on symbolic values and f32 literals / tolerances)
+            x = a[0][0]
+            if is_sym(x):
+                return a[0]
+            return [s.fl(f32r(float(x)))]
+        m = re.match(r'^(?:<R32 as (?:[\w:]*::)?NumCast>::from::<(\w+)>|(?:[\w:]*::)?cast::<(\w+), R32>)$', fname)
+        if m:
+            x = a[0][0]
+            if is_sym(x):
+                return [1, to_real(x)]
+            if isinstance(x, bool):
+                x = int(x)
+            return [1, s.fl(f32r(float(x)))]
         m = re.match(r'^(?:<R as (?:[\w:]*::)?NumCast>::from::<(\w+)>|(?:[\w:]*::)?cast::<(\w+), R>)$', fname)
         if m:
             # R's NumCast::from (left un-inlined by the depth limit): Some(r_const(x as f64))
@@ -710,10 +740,15 @@ class Machine:
             if isinstance(x, bool):
                 x = int(x)
             return [1, s.fl(float(x)) if not isinstance(x, (float, Fraction)) or s.mode == 'CONC' else x]
-        m = re.match(r'^<(R|f64|f32) as ([\w:]+)>::(\w+)(?:::<(.*)>)?$', fname)
+        m = re.match(r'^<(R32|R|f64|f32) as ([\w:]+)>::(\w+)(?:::<(.*)>)?$', fname)
         if m:
             recv, trait, f = m.group(1), m.group(2).split('::')[-1], m.group(3)
-            return s.scalar_method(p, recv, trait, f, a)
+            if recv == 'R32':
+                recv = 'f32'
+            r = s.scalar_method(p, recv, trait, f, a)
+            if recv == 'f32' and s.mode == 'CONC' and isinstance(r, list):
+                r = [f32r(v) if isinstance(v, float) else v for v in r]
+            return r
         m = re.match(r'^<(\w+) as std::ops::(Add|Sub|Mul|Div|Rem|Neg)(?:<\w+>)?>::\w+$', fname)
         if m and (m.group(1) in INT_BITS or m.group(1) in FLOATS):
             ty, op = m.group(1), m.group(2)
@@ -760,7 +795,7 @@ class Machine:
                 return [bnot(band(cmp('<=', d, e), cmp('<=', neg(d), e)))]
             if f == 'ulps_eq':
                 if conc:
-                    return [ulps_eq_f64(x, y, a[2][0], a[3][0])]
+                    return [ulps_eq_f32(x, y, a[2][0], a[3][0]) if recv == 'f32' else ulps_eq_f64(x, y, a[2][0], a[3][0])]
                 if getattr(s, 'concrete_opaque', False) and not any(is_sym(z) for z in (x, y, a[2][0], a[3][0])):
                     return [ulps_eq_f64(float(x), float(y), float(a[2][0]), int(a[3][0]))]
                 return [app('ulps_eq', 'Bool', to_real(x), to_real(y), to_real(a[2][0]), a[3][0])]
@@ -843,7 +878,7 @@ class Machine:
                          'is_sign_negative': math.copysign(1.0, x) < 0, 'is_sign_positive': math.copysign(1.0, x) > 0}[f]]
             return [app(f, 'Bool', to_real(x))]
         if f in ('epsilon',):
-            return [s.fl(2.0 ** -52)]
+            return [s.fl(2.0 ** -52)] if recv != 'f32' else [s.fl(2.0 ** -23)]
         if f in ('infinity', 'neg_infinity', 'nan', 'max_value', 'min_value', 'min_positive_value', 'neg_zero'):
             if conc:
                 return [{'infinity': math.inf, 'neg_infinity': -math.inf, 'nan': math.nan, 'max_value': 1.7976931348623157e308, 'min_value': -1.7976931348623157e308,
